@@ -2,10 +2,8 @@ package props
 
 import (
 	"fmt"
-	"go/ast"
 	"go/types"
 
-	"golang.org/x/tools/go/packages"
 	"golang.org/x/tools/go/ssa"
 
 	"verifsa/core"
@@ -15,51 +13,102 @@ import (
 func init() { Registry["C09"] = c09 }
 
 // lastElemRule: every x[len(x)-1] on an []int (ends) operand in library code is guarded against empty x.
+// Decided on SSA: the index value is len(x')-1 for a slice x' equivalent to x however the source spells it, and the
+// access is unreachable once every CFG edge implying len(x) > 0 is deleted. When x is a parameter and the function
+// does not guard it, every caller in the module must (two levels up).
 func lastElemRule(p *core.Program, r *core.Report, rule string, floor int, only func(obj *types.Func) bool) {
-	r.Rule(rule, "every index expression x[len(x)-1] whose operand is an []int (an ends row) is guarded against an empty x: inside `if len(x) > 0`, in the else of `if len(x) == 0`, or after an early exit on len(x) == 0, with no reassignment of x in between (siblings inflate3/reverse3/writeFlatCoords3/Polygon guard it: empty rows are produced by Push, SetCoords and the WKT parser)", floor)
-	p.Decls(true, func(pkg *packages.Package, obj *types.Func, fd *ast.FuncDecl) {
-		if only != nil && !only(obj) {
-			return
+	r.Rule(rule, "every index x[len(x)-1] whose operand is an []int (an ends row) is unreachable once all CFG edges that imply len(x) > 0 are deleted (tests len>0, len!=0, len>=1 and their negations on the other edge, on x or on a value equivalent to it: a local holding len(x), a repeated field/index expression with no intervening store); if x is a parameter the obligation may be met by every caller instead (empty rows are produced by Push, SetCoords and the WKT parser)", floor)
+	callers := map[*ssa.Function][]ssa.CallInstruction{}
+	for _, fn := range p.SrcFuncs(true) {
+		for _, c := range eng.Calls(fn) {
+			if cal := eng.StaticCallee(c); cal != nil {
+				callers[cal] = append(callers[cal], c)
+			}
 		}
-		n := 0
-		for _, s := range eng.LastElemSites(pkg, fd) {
-			if s.XType == nil {
+	}
+	var guardedByCallers func(fn *ssa.Function, param int, depth int) (bool, string)
+	guardedByCallers = func(fn *ssa.Function, param int, depth int) (bool, string) {
+		cs := callers[fn]
+		if len(cs) == 0 || depth > 2 {
+			return false, "no caller establishes it"
+		}
+		if obj, ok := fn.Object().(*types.Func); ok && obj.Exported() {
+			return false, "the function is exported: callers outside the module are not bound to establish it"
+		}
+		for _, c := range cs {
+			args := c.Common().Args
+			if param >= len(args) {
+				return false, "call shape not understood"
+			}
+			a := args[param]
+			if eng.ArgNonEmptyAt(c, a) {
 				continue
 			}
-			sl, ok := s.XType.Underlying().(*types.Slice)
+			ok := false
+			for i, pp := range c.Parent().Params {
+				if ssa.Value(pp) == a {
+					ok, _ = guardedByCallers(c.Parent(), i, depth+1)
+				}
+			}
 			if !ok {
-				continue
-			}
-			if b, ok := sl.Elem().Underlying().(*types.Basic); !ok || b.Kind() != types.Int {
-				continue
-			}
-			n++
-			key := fmt.Sprintf("%s/%s[len-1]#%d", core.ObjName(obj), s.X, n)
-			if s.Guarded {
-				r.OK(rule, key, p.Pos(s.Expr.Pos()), true, "guarded: "+s.How)
-			} else {
-				r.Bad(rule, key, p.Pos(s.Expr.Pos()), "last-element index of "+s.X+" is not guarded against an empty slice: an empty part (empty polygon in a MultiPolygon) makes it panic with index out of range [-1]")
+				return false, "caller " + short(c.Parent()) + " at " + p.Pos(c.Pos()) + " passes a row that may be empty"
 			}
 		}
-	})
+		return true, fmt.Sprintf("established by all %d caller(s)", len(cs))
+	}
+	for _, fn := range p.SrcFuncs(true) {
+		if only != nil {
+			root := fn
+			for root.Parent() != nil {
+				root = root.Parent()
+			}
+			obj, _ := root.Object().(*types.Func)
+			if obj == nil || !only(obj) {
+				continue
+			}
+		}
+		for n, s := range eng.LastElemSitesSSA(fn) {
+			key := fmt.Sprintf("%s/last#%d", short(fn), n+1)
+			pos := p.Pos(s.Instr.Pos())
+			switch {
+			case s.Guarded:
+				r.OK(rule, key, pos, true, s.How)
+			case s.Param >= 0:
+				if ok, how := guardedByCallers(fn, s.Param, 0); ok {
+					r.OK(rule, key, pos, true, how)
+				} else {
+					r.Bad(rule, key, pos, "last-element index of parameter "+s.X.Name()+" is not guarded against an empty slice here and "+how+": an empty part (empty polygon in a MultiPolygon) makes it panic with index out of range [-1]")
+				}
+			default:
+				r.Bad(rule, key, pos, "last-element index of "+s.X.Name()+" is not guarded against an empty slice: an empty part (empty polygon in a MultiPolygon) makes it panic with index out of range [-1]")
+			}
+		}
+	}
 }
 
-// chainRule: offset chaining in every ends/endss iterator.
+// chainRule: offset chaining in every ends/endss iterator (SSA formulation, see eng/chain2.go).
 func chainRule(p *core.Program, r *core.Report, rule string, floor int, only func(obj *types.Func) bool) {
-	r.Rule(rule, "in every range loop over an ends ([]int) or endss ([][]int) slice that passes (running offset, element) to a callee or slice expression, the offset is assigned exactly once per iteration, unconditionally, to the element (level 2) or to the element's last entry (level 3, under the emptiness guard)", floor)
-	p.Decls(true, func(pkg *packages.Package, obj *types.Func, fd *ast.FuncDecl) {
-		if only != nil && !only(obj) {
-			return
-		}
-		for i, c := range eng.ChainLoops(pkg, fd) {
-			key := fmt.Sprintf("%s/range-%s#%d", core.ObjName(obj), c.Elem, i+1)
-			if c.OK {
-				r.OK(rule, key, p.Pos(c.Loop.Pos()), true, c.Why)
-			} else {
-				r.Bad(rule, key, p.Pos(c.Loop.Pos()), c.Why)
+	r.Rule(rule, "in every loop that walks an ends ([]int) or endss ([][]int) slice by a +1 counter and uses a running lower bound together with the current element (arguments of one call, bounds of one slice expression, an equality test, or the start of an inner chain loop), the value the lower bound takes for the next iteration, resolved through the body's phis, is the element itself on every path (level 2) or - level 3 - the row's last end when the row is non-empty and unchanged when it is empty", floor)
+	for _, fn := range p.SrcFuncs(true) {
+		if only != nil {
+			root := fn
+			for root.Parent() != nil {
+				root = root.Parent()
+			}
+			obj, _ := root.Object().(*types.Func)
+			if obj == nil || !only(obj) {
+				continue
 			}
 		}
-	})
+		for i, c := range eng.ChainLoopsSSA(fn) {
+			key := fmt.Sprintf("%s/chain#%d", short(fn), i+1)
+			if c.OK {
+				r.OK(rule, key, p.Pos(c.Pos), true, c.Why)
+			} else {
+				r.Bad(rule, key, p.Pos(c.Pos), c.Why)
+			}
+		}
+	}
 }
 
 func geomTypeNames() []string {
@@ -67,8 +116,8 @@ func geomTypeNames() []string {
 }
 
 func c09(p *core.Program, r *core.Report) {
-	lastElemRule(p, r, "last-elem-guarded", 9, nil)
-	chainRule(p, r, "offset-chain", 16, nil)
+	lastElemRule(p, r, "last-elem-guarded", 6, nil)
+	chainRule(p, r, "offset-chain", 12, nil)
 
 	const rz = "zero-area"
 	r.Rule(rz, "Area() of Point, LineString, MultiPoint and MultiLineString returns the constant 0 on every path", 4)
@@ -113,5 +162,5 @@ func c09(p *core.Program, r *core.Report) {
 	measureDelegationRule(p, r, "measure-delegation")
 
 	r.Assume("numerical accuracy of the shoelace/length sums and additivity as an equation are not decided")
-	r.Assume("LASTELEM/CHAIN match the repository's iterator idioms on the type-checked AST; a differently written iterator would be reported, not silently accepted")
+	r.Assume("LASTELEM/CHAIN are decided on SSA values (value equivalence of repeated pure field/index expressions assumes no store to the same field/element type in the function); floors are set below today's counts (9 sites, 17 loops) so that merging duplicated iterators is not reported")
 }
